@@ -21,7 +21,7 @@ from jsonrpclib import jsonrpc
 from jsonrpclib.SimpleJSONRPCServer import SimpleJSONRPCServer, PooledJSONRPCServer
 
 logging.disable(logging.CRITICAL)
-BOUND = 4.0
+BOUND = float(os.environ.get("VERIF_SRV_BOUND", "4.0"))       # the confirmation pass of checks/c12_server.py uses a much longer one
 
 
 def watchdog(fn):
@@ -63,12 +63,12 @@ class Client(threading.Thread):
                 # fewer body bytes than announced, then half-close: the server must answer (a parse error) and go on
                 if self.url.startswith("unix+http://"):
                     sk = socket.socket(socket.AF_UNIX, socket.SOCK_STREAM)
-                    sk.settimeout(2.5)
+                    sk.settimeout(BOUND * 0.6)
                     sk.connect(self.url[len("unix+http://"):])
                 else:
                     hostport = self.url[len("http://"):].rstrip("/")
-                    sk = socket.create_connection((hostport.split(":")[0], int(hostport.split(":")[1])), timeout=2.5)
-                    sk.settimeout(2.5)
+                    sk = socket.create_connection((hostport.split(":")[0], int(hostport.split(":")[1])), timeout=BOUND * 0.6)
+                    sk.settimeout(BOUND * 0.6)
                 body = json.dumps({"jsonrpc": "2.0", "id": 1, "method": "echo", "params": [self.token]}).encode()
                 sk.sendall(b"POST / HTTP/1.0\r\nContent-Type: application/json\r\nContent-Length: " + str(len(body) + 25).encode() + b"\r\n\r\n" + body[:-5])
                 sk.shutdown(socket.SHUT_WR)
@@ -138,7 +138,8 @@ class Client(threading.Thread):
             self.out.update(status="error:" + type(e).__name__)
 
 
-def run_word(word, cls, transport, poolcfg, rnd, rundir, counter):
+def run_word(word, cls, transport, poolcfg, rnd, rundir, counter, plan=None):
+    plan_out, plan_in = [], list(plan or [])
     execs = {}
     lock = threading.Lock()
 
@@ -211,9 +212,12 @@ def run_word(word, cls, transport, poolcfg, rnd, rundir, counter):
             calls.append({"op": "S", "returned": True, "secs": 0.0, "exc": ""})
         elif op == "R":
             batch = []
-            for _ in range(rnd.randint(1, 5)):
+            kinds = plan_in.pop(0) if plan_in else [[rnd.choice(["call", "call", "slow", "notify", "batch", "invalid", "fail", "truncated", "failhard", "rawid"]),
+                                                    rnd.choice([1.0, 2.0])] for _ in range(rnd.randint(1, 5))]
+            plan_out.append(kinds)
+            for kind, ver in kinds:
                 counter[0] += 1
-                c = Client(url, "tok-%d" % counter[0], rnd.choice(["call", "call", "slow", "notify", "batch", "invalid", "fail", "truncated", "failhard", "rawid"]), rnd.choice([1.0, 2.0]))
+                c = Client(url, "tok-%d" % counter[0], kind, ver)
                 batch.append(c)
                 c.start()
             for c in batch:
@@ -224,13 +228,15 @@ def run_word(word, cls, transport, poolcfg, rnd, rundir, counter):
             # requests still in flight when the next life-cycle call is made: slow calls, not awaited here
             batch = []
             a0 = accepted[0]
-            for _ in range(rnd.randint(2, 4) if cls == "pooled" else 1):
+            kinds = plan_in.pop(0) if plan_in else [["slow", rnd.choice([1.0, 2.0])] for _ in range(rnd.randint(2, 4) if cls == "pooled" else 1)]
+            plan_out.append(kinds)
+            for kind, ver in kinds:
                 counter[0] += 1
-                c = Client(url, "tok-%d" % counter[0], "slow", rnd.choice([1.0, 2.0]))
+                c = Client(url, "tok-%d" % counter[0], kind, ver)
                 batch.append(c)
                 c.start()
             clients += batch
-            deadline = time.time() + 2.0
+            deadline = time.time() + BOUND / 2
             while time.time() < deadline and accepted[0] - a0 < len(batch):
                 time.sleep(0.002)          # every connection has been accepted: all these requests are in flight
             calls.append({"op": "A", "returned": True, "secs": 0.0, "exc": ""})
@@ -252,7 +258,7 @@ def run_word(word, cls, transport, poolcfg, rnd, rundir, counter):
         fileno = -1
     # workers of the pool the server stops: threads created since the server was built and named after the pool
     prefix = ("userpool%d-" % pool_id) if poolcfg > 0 else "PooledJSONRPCServer-"
-    deadline = time.time() + 2.0
+    deadline = time.time() + BOUND / 2
     alive = []
     while cls == "pooled":
         alive = [t.name for t in threading.enumerate() if t not in before and t.name.startswith(prefix) and t.is_alive()]
@@ -283,7 +289,7 @@ def run_word(word, cls, transport, poolcfg, rnd, rundir, counter):
             os.unlink(addr)
         except OSError:
             pass
-    return {"word": word, "cls": cls, "transport": transport, "pool": poolcfg, "calls": calls, "replies": replies,
+    return {"word": word, "cls": cls, "transport": transport, "pool": poolcfg, "plan": plan_out, "calls": calls, "replies": replies,
             "closed": closed_ops, "fileno": fileno, "alive_workers": alive, "loops_alive": sum(1 for t in loops if t.is_alive())}
 
 
@@ -298,7 +304,7 @@ if __name__ == "__main__":
     for w in words:
         for cls, transport, poolcfg in w["cfgs"]:
             counter[0] += 1
-            recs.append(run_word(w["w"], cls, transport, poolcfg, rnd, rundir, counter))
+            recs.append(run_word(w["w"], cls, transport, poolcfg, rnd, rundir, counter, w.get("plan")))
             r = recs[-1]
             if any(not c["returned"] for c in r["calls"]) or any(not x["done"] for x in r["replies"]):
                 # something is blocked (or spinning) for good inside this process: write what was recorded and leave at once
